@@ -430,4 +430,17 @@ example :
       labelToSelfies [1, 4] exItos = .error .KeyError ∧
       labelToSelfies [-1] exItos = .error .KeyError) := by decide
 
+/-- `encoding_to_selfies` checks its own `enc_type` first: only `"label"` and `"one_hot"` are accepted there
+    (`"both"` and every other value raise `ValueError`); for the two accepted values it is the corresponding decoder. -/
+theorem C15_errors_enc_type_decode (labels : List Int) (rows : List (List Int)) (vocab : VocabItos) :
+    encodingToSelfies labels rows vocab .both = .error .ValueError ∧
+    encodingToSelfies labels rows vocab .other = .error .ValueError ∧
+    encodingToSelfies labels rows vocab .label = labelToSelfies labels vocab ∧
+    encodingToSelfies labels rows vocab .oneHot = oneHotToSelfies rows vocab := by
+  simp [encodingToSelfies]
+
+example : encodingToSelfies [1] [[0, 1]] [(0, "[nop]".toList), (1, "[C]".toList)] .both = .error .ValueError
+    ∧ encodingToSelfies [1] [[0, 1]] [(0, "[nop]".toList), (1, "[C]".toList)] .label = .ok "[C]".toList := by decide
+
+
 end SV
